@@ -356,6 +356,9 @@ fn job_workload(master: u64, job: u64, tier: Tier) -> Vec<u8> {
     if job % 16 == 3 {
         return workload::gen_png_edge_file(&mut rng);
     }
+    if job % 16 == 1 {
+        return workload::gen_cut_trailer_file(&mut rng);
+    }
     if job % 16 == 13 {
         // expanded sizes at the boundaries of the zstd frame header (content size field of 1, 2,
         // 4 bytes; the 2 byte form is biased by 256; single-segment frames end at the window size)
